@@ -178,11 +178,18 @@ def parseStrand (s : Bytes) : Except Err Strand :=
   else if s = [45] then .ok .reverse
   else .error .invalidData
 
-/-- `RecordBuf::try_from_feature_record` over the lazy GTF record of a line. The trait method
-`attributes()` of the lazy record is `self.attributes().unwrap()`, so a malformed attribute column
-is a panic here, not an error. -/
-def readRecord {F : Type} (ff : FloatFmt F) (line : Bytes) : Except Err (Record F) := do
+/-- `Record::try_new`: the field bounds, then the attribute column is parsed once so that a
+malformed one is an error of the line (the trait method `attributes()` cannot report one) -/
+def tryNew (line : Bytes) : Except Err Fields := do
   let f ← bounds line
+  let _ ← parseAttrs f.attrs
+  pure f
+
+/-- `RecordBuf::try_from_feature_record` over the lazy GTF record of a line. The trait method
+`attributes()` of the lazy record is `self.attributes().unwrap()`; `try_new` has already parsed the
+column, so the `unwrap` (kept as `.panic` here) is not reached. -/
+def readRecord {F : Type} (ff : FloatFmt F) (line : Bytes) : Except Err (Record F) := do
+  let f ← tryNew line
   let start ← parsePosition f.start
   let end_ ← parsePosition f.end_
   let score ← transpose (parseScore ff f.score)
